@@ -124,8 +124,8 @@ CHECKS = {
          "strict prefix of a frame is an error and the reservation is <= 64 KiB and the framing code never panics - both "
          "with NO assumption on inflate. Measured, not proved: miniz_oxide does not panic on damaged data, Vec growth "
          "stays within 2x produced bytes (counting allocator).",
-         "6 C16", "Oracle law inflate(deflate l d) = Some d (flate2/miniz_oxide) assumed; lengths < 2^32 (F18: `as u32` "
-         "truncation beyond, model-only). " + TB),
+         "6 C16", "Oracle law inflate(deflate l d) = Some d (flate2/miniz_oxide) assumed. Lengths of 2^32 bytes or more are "
+         "LengthTooLarge since the repair of F18 (C16_frame_true_lengths; a 2^32 + 5 byte block is tried on every run). " + TB),
  "C17": ("Theorems: for every value (well-typed or not) and well-formed declarations the encoder model - which contains "
          "every u8/i8 counter overflow, -(i8::MIN), buffer index, unwrap and the 255-step assertion of the Rust - never "
          "panics except for the i32 string-id counter, which needs 2^31-1 distinct strings already in the stream; the "
